@@ -62,7 +62,18 @@ let c_simstate (s : sys) : string =
     (sn n.Sim.sn_net_count) (sn n.Sim.sn_traffic)
     (cat "," (LL.map (fun (p, _) -> sn p) s.Sim.y_proc_nodes))
 
-let run (sc : scenario) : string =
+let c_sim_pv (s : sys) : string =
+  cat "" (LL.map (fun (_, nd) ->
+      cat "" (LL.map (fun (pn, pe) ->
+          Printf.sprintf "{P%s i%s h[%s] o[%s]}" (sn pn) (sn pe.Log.pe_state.Script.ps_idx)
+            (cat "" (LL.map c_hentry pe.Log.pe_state.Script.ps_hist)) (cat ";" (LL.map c_msg pe.Log.pe_outbox)))
+          nd.Sim.sd_procs))
+      s.Sim.y_nodes)
+
+type runner = { feed : int -> string -> unit; get_sys : unit -> sys;
+                get_progs : unit -> (coq_N * coq_N Script.prog) list; out : Buffer.t }
+
+let make_runner () : runner =
   let b = Buffer.create 65536 in
   let add = Buffer.add_string b in
   let verbose = ref false in
@@ -105,10 +116,10 @@ let run (sc : scenario) : string =
           LL.map (fun (pn, pe) ->
               Printf.sprintf "%s:%s:%s:%d:%d" (sn pn) (sn pe.Log.pe_sent) (sn pe.Log.pe_recv)
                 (LL.length pe.Log.pe_outbox) (LL.length pe.Log.pe_evlog)) nd.Sim.sd_procs) s'.Sim.y_nodes)) ^ "\n");
-      add (Printf.sprintf "NC %s %s\n" (sn s'.Sim.y_net.Sim.sn_net_count) (sn s'.Sim.y_net.Sim.sn_traffic))
+      add (Printf.sprintf "NC %s %s\n" (sn s'.Sim.y_net.Sim.sn_net_count) (sn s'.Sim.y_net.Sim.sn_traffic));
+      add ("PV " ^ fnv (c_sim_pv s') ^ "\n")
   in
-  (try
-     LL.iteri (fun idx line ->
+  let feed idx line =
          let t = toks_of_line line in
          match next_tok t with
          | "VERBOSE" -> verbose := true
@@ -144,7 +155,10 @@ let run (sc : scenario) : string =
                | "UNTILLOCALTIMEOUT" -> let p = next_n t in let d = next_n t in Sim.YStepUntilLocalTimeout (p, d)
                | s -> failwith ("bad SIM op " ^ s)) in
            do_op idx o
-         | s -> failwith ("bad SIM line " ^ s))
-       sc.lines
-   with Exit -> ());
-  Buffer.contents b
+         | s -> failwith ("bad SIM line " ^ s) in
+  { feed; get_sys = (fun () -> !sys); get_progs; out = b }
+
+let run (sc : scenario) : string =
+  let r = make_runner () in
+  (try LL.iteri r.feed sc.lines with Exit -> ());
+  Buffer.contents r.out
